@@ -112,6 +112,24 @@ var c11Custom = []c11Codec{
 			return x, x
 		},
 		gen: func(g *c11Gen, p any) { *p.(*types.V2TransactionsMultiproof) = g.safeV2Txns() }},
+	// v2 transactions without policy-bearing inputs: the part of the v2 transaction
+	// codec (version, bitmap, every other field incl. all resolution kinds) that the
+	// Lean model covers end to end (SpendPolicy has its own model, property C14)
+	{lean: "Types_V2Transaction", goName: "types.V2Transaction/no-inputs",
+		newPtr: func() any { return new(types.V2Transaction) },
+		codec: func(p any) (types.EncoderTo, types.DecoderFrom) {
+			x := p.(*types.V2Transaction)
+			return x, x
+		},
+		gen: func(g *c11Gen, p any) {
+			x := p.(*types.V2Transaction)
+			g.fill(reflect.ValueOf(x).Elem(), 3)
+			x.SiacoinInputs, x.SiafundInputs = nil, nil
+		},
+		norm: func(p any) {
+			x := p.(*types.V2Transaction)
+			x.SiacoinInputs, x.SiafundInputs = nil, nil
+		}},
 	{lean: "Rhp2_loopKeyExchangeRequest", goName: "rhp2.loopKeyExchangeRequest", newPtr: func() any { return new(c11LoopReq) },
 		codec: func(p any) (types.EncoderTo, types.DecoderFrom) {
 			x := p.(*c11LoopReq)
